@@ -12,6 +12,7 @@ package c02
 
 import (
 	"bytes"
+	"database/sql/driver"
 	"errors"
 	"fmt"
 	"math/rand"
@@ -96,6 +97,42 @@ func excludes(a, b []string) bool {
 	return false
 }
 
+// sqlObs watches the durable outbound counter of the SQL store: between two resets the values written to
+// outgoing_seqnum must not decrease (a lower value written after a higher one means that a store reopened at
+// that moment hands out a number again).
+type sqlObs struct {
+	mu       sync.Mutex
+	last     int64
+	writes   int
+	backward string
+}
+
+func (o *sqlObs) observe(q string, args []driver.NamedValue) {
+	i := strings.Index(q, "outgoing_seqnum=?")
+	if i < 0 || !strings.HasPrefix(strings.TrimSpace(q), "UPDATE") {
+		return
+	}
+	k := strings.Count(q[:i], "?")
+	if k >= len(args) {
+		return
+	}
+	v, ok := args[k].Value.(int64)
+	if !ok {
+		return
+	}
+	o.mu.Lock()
+	defer o.mu.Unlock()
+	o.writes++
+	if strings.Contains(q, "creation_time=?") {
+		o.last = v // a reset starts the numbering again
+		return
+	}
+	if v < o.last && o.backward == "" {
+		o.backward = fmt.Sprintf("the durable next outbound number was %d and a later statement wrote %d (%s)", o.last, v, strings.Join(strings.Fields(q), " "))
+	}
+	o.last = v
+}
+
 // ---- yield hook ----
 
 var (
@@ -174,12 +211,26 @@ func oneRun(c *core.Ctx, r *core.Result, idx int, rng *rand.Rand) {
 	var err error
 	var failCtr uint64
 	var injected int64
+	obs := &sqlObs{}
+	defer func() {
+		storelab.ObserveSQL(dir+"/db.sqlite", nil)
+		obs.mu.Lock()
+		defer obs.mu.Unlock()
+		r.Count("sql_counter_writes_observed", obs.writes)
+		if obs.backward != "" {
+			msg := "the outbound counter stored in the database moved backwards without a reset: " + obs.backward + ": a store reopened on this database at that moment hands out a number a second time"
+			r.Violate("C02/durable-counter-moved-backwards", msg+"; run "+cf.String(), map[string]interface{}{"config": cf.String(), "index": idx, "message": msg})
+		}
+	}()
 	injectStoreErrors := cf.Persist && cf.Reset == "" && idx%2 == 0
 	defer func() { r.Count("store_errors_injected", int(atomic.LoadInt64(&injected))) }()
 	port := 0
 	for try := 0; try < 3; try++ {
 		port = live.FreePort()
-		eng, err = live.StartAcceptor(live.Options{Who: "engine", Begin: cf.Begin, Sender: "E" + tag, Target: "P" + tag, Port: port, StoreKind: cf.Store, StoreDir: dir, Extra: extra, R: rec,
+		if cf.Store == "sql" {
+			storelab.ObserveSQL(dir+"/db.sqlite", obs.observe)
+		}
+		eng, err = live.StartAcceptor(live.Options{Who: "engine", SQLDriver: storelab.ObsDriver, Begin: cf.Begin, Sender: "E" + tag, Target: "P" + tag, Port: port, StoreKind: cf.Store, StoreDir: dir, Extra: extra, R: rec,
 			Fail: func(op string, n int, msg []byte) error {
 				// now and then the store refuses an application message: the send must fail as a whole (error to the
 				// caller, nothing on the wire, the number not used up)
